@@ -57,21 +57,29 @@ func c08FullCfg(lvl protocol.EncryptionLevel) c08FrameCfg {
 	return c08FrameCfg{lvl: lvl, dg: true, rsa: true, af: true, exp: protocol.AckDelayExponent}
 }
 
-// c08FrameRunner caches one real FrameParser per configuration (as a connection does).
+// c08FrameRunner caches one real FrameParser per configuration (as a connection does). A
+// parser is replaced after c08ParserUses requests: the systematic histories are the business
+// of the part frame-history, and a parser that (wrongly) accumulated state over hundreds of
+// thousands of frames would make a chunk quadratically slow instead of producing a verdict.
 type c08FrameRunner struct {
 	parsers map[c08FrameCfg]*FrameParser
+	uses    map[c08FrameCfg]int
 }
+
+const c08ParserUses = 256
 
 func (c *c08Ctx) parser(g c08FrameCfg) *FrameParser {
 	if c.fr == nil {
-		c.fr = &c08FrameRunner{parsers: map[c08FrameCfg]*FrameParser{}}
+		c.fr = &c08FrameRunner{parsers: map[c08FrameCfg]*FrameParser{}, uses: map[c08FrameCfg]int{}}
 	}
 	p := c.fr.parsers[g]
-	if p == nil {
+	if p == nil || c.fr.uses[g] >= c08ParserUses {
 		p = NewFrameParser(g.dg, g.rsa, g.af)
 		p.SetAckDelayExponent(g.exp)
 		c.fr.parsers[g] = p
+		c.fr.uses[g] = 0
 	}
+	c.fr.uses[g]++
 	return p
 }
 
